@@ -81,6 +81,7 @@ func main() {
 		params     multiFlag
 		redirects  multiFlag
 	)
+	flag.IntVar(&pruneAltsAbove, "prune", 5, "ask the solver to prune reference alternatives when a merge has more than this many")
 	flag.Var(&params, "param", "name=int (repeatable)")
 	flag.Var(&redirects, "redirect", "real.Func=pkgpath.Func (repeatable)")
 	flag.Parse()
